@@ -80,7 +80,7 @@ static const variant V[] = {
 #define NV ((int) (sizeof(V) / sizeof(V[0])))
 
 // ---- letters -----------------------------------------------------------------
-enum { L_SEND, L_RECV, L_LINK, L_BUF, L_SUBTOG };
+enum { L_SEND, L_RECV, L_LINK, L_BUF, L_SUBTOG, L_CTXSEND, L_CTXRECV, L_CTXCYCLE };
 typedef struct letter {
 	int kind;
 	int side; // 0 = X, 1 = Y, 2 = both (L_BUF)
@@ -91,7 +91,9 @@ typedef struct letter {
 // (seed 0 = freshly connected, others = forced letter prefix)
 typedef struct scen {
 	const variant *v;
-	letter         al[16];
+	int            withctx; // a second context on every side that has contexts; its operations
+	                        // have no descriptor of their own but must not disturb the socket's
+	letter         al[20];
 	int            nal;
 	int            nseed;
 	int            prefix[3][8];
@@ -122,6 +124,13 @@ tolerated(const char *sig)
 			vs_fail(sig_, __VA_ARGS__);      \
 	} while (0)
 
+static int
+has_ctx(const char *proto)
+{
+	return !strcmp(proto, "req") || !strcmp(proto, "rep") || !strcmp(proto, "surveyor") ||
+	    !strcmp(proto, "respondent") || !strcmp(proto, "sub");
+}
+
 static void
 mk_alphabet(scen *sc, const variant *v)
 {
@@ -140,6 +149,16 @@ mk_alphabet(scen *sc, const variant *v)
 	}
 	if (v->sub)
 		sc->al[sc->nal++] = (letter){ L_SUBTOG, 1, 0 };
+	if (sc->withctx)
+		for (int s = 0; s < 2; s++) {
+			if (!has_ctx(v->name[s]))
+				continue;
+			if (v->snd[s])
+				sc->al[sc->nal++] = (letter){ L_CTXSEND, s, 0 };
+			if (v->rcv[s])
+				sc->al[sc->nal++] = (letter){ L_CTXRECV, s, 0 };
+			sc->al[sc->nal++] = (letter){ L_CTXCYCLE, s, 0 };
+		}
 }
 
 static int
@@ -241,6 +260,15 @@ run(void *arg)
 	}
 	VH_OK(nng_listen(s[0], "inproc://c15", NULL, 0));
 	VH_OK(nng_dial(s[1], "inproc://c15", &d, 0));
+	nng_ctx cx[2];
+	int     hascx[2] = { 0, 0 };
+	for (int i = 0; i < 2 && sc->withctx; i++)
+		if (has_ctx(v->name[i])) {
+			VH_OK(nng_ctx_open(&cx[i], s[i]));
+			hascx[i] = 1;
+			if (!strcmp(v->name[i], "sub"))
+				VH_OK(nng_sub0_ctx_subscribe(cx[i], "", 0));
+		}
 	vs_settle();
 
 	int seed  = sc->nseed > 1 ? vs_choose(VK_ENV, sc->nseed) : 0;
@@ -307,11 +335,22 @@ run(void *arg)
 				    "did not poll readable at the quiescent point "
 				    "just before",
 				    hist);
-			if (P && R == NNG_EAGAIN)
+			if (P && R == NNG_EAGAIN) {
 				VIOL(SIG(sig, pn, "send", "readable-but-eagain"),
 				    "[%s] send descriptor polled readable but the "
 				    "non-blocking send returned NNG_EAGAIN",
 				    hist);
+				// only reached for the recorded RESPONDENT finding (soft): the states
+				// behind it are still explored - the same message goes out through
+				// the blocking form, which works
+				VH_OK(nng_msg_alloc(&m, 0));
+				VH_OK(nng_msg_append(m, body, 2));
+				VH_OK(nng_socket_set_ms(s[k], NNG_OPT_SENDTIMEO, 50));
+				if (nng_sendmsg(s[k], m, 0) != 0)
+					nng_msg_free(m);
+				else
+					accepted[k][seq] = 1;
+			}
 			if (R == 0)
 				n_ok++;
 			else if (R == NNG_EAGAIN)
@@ -374,6 +413,61 @@ run(void *arg)
 				n_other++;
 			n_rd += P;
 		} break;
+		case L_CTXSEND: {
+			int      k       = x->side;
+			int      seq     = nsent[k]++;
+			uint8_t  body[2] = { (uint8_t) (k ? 'Y' : 'X'), (uint8_t) seq };
+			nng_msg *m;
+			if (seq >= 16)
+				vs_fail("harness:tags", "more than 16 sends per side");
+			VH_OK(nng_msg_alloc(&m, 0));
+			VH_OK(nng_msg_append(m, body, 2));
+			int64_t t0 = vs_now();
+			int     R  = nng_ctx_sendmsg(cx[k], m, NNG_FLAG_NONBLOCK);
+			int64_t dt = vs_now() - t0;
+			snprintf(h, hr, "%sctxsend%c=%s", sp, k ? 'Y' : 'X', ename(R));
+			if (R != 0)
+				nng_msg_free(m);
+			else
+				accepted[k][seq] = 1;
+			if (dt != 0)
+				VIOL(SIG(sig, v->name[k], "ctxsend", "blocked"),
+				    "[%s] non-blocking context send took %lld virtual ms", hist,
+				    (long long) dt);
+		} break;
+		case L_CTXRECV: {
+			int      k  = x->side;
+			nng_msg *m  = NULL;
+			int64_t  t0 = vs_now();
+			int      R  = nng_ctx_recvmsg(cx[k], &m, NNG_FLAG_NONBLOCK);
+			int64_t  dt = vs_now() - t0;
+			snprintf(h, hr, "%sctxrecv%c=%s", sp, k ? 'Y' : 'X', ename(R));
+			if (dt != 0)
+				VIOL(SIG(sig, v->name[k], "ctxrecv", "blocked"),
+				    "[%s] non-blocking context recv took %lld virtual ms", hist,
+				    (long long) dt);
+			if (R == 0) {
+				const uint8_t *b  = nng_msg_body(m);
+				size_t         bl = nng_msg_len(m);
+				int            pk = !k;
+				if (bl != 2 || b[0] != (pk ? 'Y' : 'X') || b[1] >= nsent[pk] ||
+				    !accepted[pk][b[1]])
+					VIOL(SIG(sig, v->name[k], "ctxrecv", "phantom"),
+					    "[%s] a context received a body that the peer never had "
+					    "accepted",
+					    hist);
+				snprintf(h + strlen(h), hr - strlen(h), "(%c%d)", b[0], b[1]);
+				nng_msg_free(m);
+			}
+		} break;
+		case L_CTXCYCLE: {
+			int k = x->side;
+			VH_OK(nng_ctx_close(cx[k]));
+			VH_OK(nng_ctx_open(&cx[k], s[k]));
+			if (!strcmp(v->name[k], "sub"))
+				VH_OK(nng_sub0_ctx_subscribe(cx[k], "", 0));
+			snprintf(h, hr, "%sctxcycle%c", sp, k ? 'Y' : 'X');
+		} break;
 		case L_LINK:
 			if (up) {
 				VH_OK(nng_dialer_close(d));
@@ -408,6 +502,7 @@ run(void *arg)
 		vs_settle();
 	}
 	vs_log("%s", hist);
+	(void) hascx;
 	vs_outcome("s%d o%d a%d x%d p%d u%d", seed, n_ok, n_again, n_other, n_rd,
 	    up);
 	nng_socket_close(s[1]);
@@ -618,16 +713,24 @@ main(int argc, char **argv)
 	vx_init(argc, argv, "C15");
 	g_tolerate   = getenv("C15_TOLERATE");
 	int    T     = vx_is_thorough();
-	long   cap   = T ? 50000 : 3200; // executions from the initial state
-	long   capsd = T ? 8000 : 400;   // executions per seeded state
+	long   cap0   = T ? 50000 : 3200; // executions from the initial state
+	long   capsd0 = T ? 8000 : 400;   // executions per seeded state
+	long   cap = cap0, capsd = capsd0;
 	int    maxd  = T ? 6 : 5;
 	double need  = T ? 90 : 6;
 	int    dmin = 99, dmax = 0, sdmin = 99, sdmax = 0, skipped = 0;
-	static scen SC[NV];
-	for (int i = 0; i < NV; i++) {
-		scen *sc = &SC[i];
+	static scen SC[2 * NV];
+	for (int ii = 0; ii < 2 * NV; ii++) {
+		int   i  = ii % NV;
+		scen *sc = &SC[ii];
+		sc->withctx = ii >= NV;
+		if (sc->withctx && !has_ctx(V[i].name[0]) && !has_ctx(V[i].name[1]))
+			continue;
 		mk_alphabet(sc, &V[i]);
 		// seed 0: the initial (connected, empty) state
+		// (the context scenarios have 10-11 letters: depth 3 from every start state)
+		long cap = sc->withctx ? (T ? 170000 : 1500) : cap0;
+		long capsd = sc->withctx ? (T ? 15000 : 1500) : capsd0;
 		sc->npre[0]  = 0;
 		sc->depth[0] = depth_for(sc->nal, cap, maxd);
 		sc->nseed    = 1;
@@ -666,6 +769,11 @@ main(int argc, char **argv)
 		memset(&c, 0, sizeof(c));
 		c.prop     = "C15";
 		c.scenario = V[i].scen;
+		if (sc->withctx) {
+			char nm[64];
+			snprintf(nm, sizeof(nm), "%s-ctx", V[i].scen);
+			c.scenario = strdup(nm);
+		}
 		c.run      = run;
 		c.arg      = sc;
 		for (int j = 0; j < VB_NB; j++)
